@@ -149,7 +149,7 @@ def run_seed(args: dict, sandbox: str) -> dict:
     seed = args["seed"]
     docs, hostile, _title = make_pool(seed)
     r = rng.stream(seed, "world")
-    out_mode = r.choice(["explicit", "explicit", "derived"])
+    out_mode = r.choice(["explicit", "explicit", "explicit-relative", "derived"])
     if out_mode == "derived":
         # one output location per history: a derived location is a function of the title
         for d in docs.values():
@@ -196,7 +196,9 @@ class World:
         self._w(os.path.join(self.cwd, "sim-api-client-old", "keep.txt"), b"keep\n")
         self._w(os.path.join(self.cwd, "sim_api_client.bak"), b"bak\n")
         self._w(os.path.join(self.P, "models", "not-yours.py"), b"# parent-level models dir\n")
-        self.explicit = spec["out_mode"] == "explicit"
+        self.explicit = spec["out_mode"] in ("explicit", "explicit-relative")
+        # a relative --output-path is resolved against the working directory (P/work): ../out/ == P/out
+        self.out_arg = None if spec["out_mode"] != "explicit-relative" else "../out/"
         self.O: str | None = os.path.join(self.P, "out") if self.explicit else None
         self.user_files: dict[str, bytes] = {}
         self.user_dirs: set[str] = set()  # directories the user created stay, also once emptied
@@ -240,7 +242,7 @@ class World:
         a = ["generate", "--path", self.docpaths[op["doc"]], "--config", self.cfg, "--meta", op["meta"]]
         if op.get("overwrite"):
             a.append("--overwrite")
-        target = out if out is not None else (self.O if self.explicit else None)
+        target = out if out is not None else ((self.out_arg or self.O) if self.explicit else None)
         if target is not None:
             a += ["--output-path", target]
         return a
